@@ -145,42 +145,54 @@ func (g *gatedQuery) Deployment(ctx context.Context, in *dtypes.QueryDeploymentR
 
 // scriptedHostnames refuses takenHost and accepts everything else.
 type scriptedHostnames struct {
-	mu    sync.Mutex
-	calls int
-	held  int
-	hold  chan struct{} // probe only: answers are withheld until it is closed
+	mu     sync.Mutex
+	calls  int
+	holdAt int           // the holdAt-th call from arm() on is withheld (0: none)
+	held   chan struct{} // closed when that call has arrived
+	free   chan struct{} // closed to let the withheld call answer
 }
 
-func (h *scriptedHostnames) waiting() int {
+// arm makes the k-th call from now on wait; the returned channel is closed when that call has arrived.
+func (h *scriptedHostnames) arm(k int) <-chan struct{} {
 	h.mu.Lock()
 	defer h.mu.Unlock()
+	h.calls, h.holdAt = 0, k
+	h.held, h.free = make(chan struct{}), make(chan struct{})
 	return h.held
 }
 
-func (h *scriptedHostnames) answer(hostnames []string) <-chan error {
+func (h *scriptedHostnames) disarm() {
 	h.mu.Lock()
-	h.calls++
-	hold := h.hold
-	if hold != nil {
-		h.held++
+	defer h.mu.Unlock()
+	if h.free != nil {
+		close(h.free)
 	}
-	h.mu.Unlock()
-	if hold != nil {
-		out := make(chan error, 1)
-		go func() {
-			<-hold
-			out <- nil
-		}()
-		return out
-	}
-	ch := make(chan error, 1)
+	h.holdAt, h.held, h.free = 0, nil, nil
+}
+
+func (h *scriptedHostnames) answer(hostnames []string) <-chan error {
+	var verdict error
 	for _, hn := range hostnames {
 		if hn == takenHost {
-			ch <- fmt.Errorf("scripted: host %q in use", hn)
-			return ch
+			verdict = fmt.Errorf("scripted: host %q in use", hn)
+			break
 		}
 	}
-	ch <- nil
+	ch := make(chan error, 1)
+	h.mu.Lock()
+	h.calls++
+	hold := h.holdAt != 0 && h.calls == h.holdAt
+	held, free := h.held, h.free
+	h.mu.Unlock()
+	if hold {
+		close(held)
+		go func() {
+			<-free
+			ch <- verdict
+		}()
+		return ch
+	}
+	ch <- verdict
 	return ch
 }
 
@@ -227,6 +239,7 @@ type env struct {
 	gateHold chan struct{}
 
 	markers int
+	zombie  bool // the manager swallowed the provider's stop request: the service will never be done
 }
 
 func addr(seed string) sdk.AccAddress {
@@ -364,10 +377,12 @@ func (e *env) close(wait time.Duration) bool {
 	e.releaseGate()
 	e.cancel()
 	ok := true
-	select {
-	case <-e.svc.Done():
-	case <-time.After(wait):
-		ok = false
+	if !e.zombie {
+		select {
+		case <-e.svc.Done():
+		case <-time.After(wait):
+			ok = false
+		}
 	}
 	e.bus.Close()
 	curMu.Lock()
